@@ -2,7 +2,7 @@ pub mod model;
 pub mod ops;
 pub mod registry;
 pub mod stdimpls;
-pub mod util;
+pub use vutil::util;
 pub mod zoo;
 #[cfg(feature = "extra_zoo")]
 pub mod zoo_extra;
